@@ -21,7 +21,7 @@ func (*C01) Rule() string {
 }
 
 func (*C01) Plan(tier string) orch.Plan {
-	n := 600
+	n := 2000
 	if tier == "thorough" {
 		n = 40000
 	}
@@ -99,7 +99,47 @@ func (p *C01) Gen(seed uint64, i int, tier string) *scen.Scenario {
 	pendingRestore := 0
 	defID := 0
 	nOps := r.Range(2, 30)
+	n := 0
+	blocks := 0
+	type pair struct{ l, sev int }
+	var asked []pair
 	for k := 0; k < nOps; k++ {
+		if k > 0 && blocks < 3 && r.Chance(1, 6) {
+			// ask in the middle of the history, and ask the same (logger, severity) again later: an answer
+			// given once must not outlive the state it was given in
+			blocks++
+			sc.Setup = append(sc.Setup, scen.Op{Op: "get_debug_mode"}, scen.Op{Op: "snap"})
+			for q := r.Range(1, 3); q > 0; q-- {
+				pr := pair{scen.Pick(r, loggers), scen.Pick(r, []int{model.Debug, model.Debug, model.Info, model.Warn, model.Error, model.Trace})}
+				if len(customs) > 0 && r.Chance(1, 3) {
+					pr.sev = scen.Pick(r, customs)
+				}
+				if len(asked) > 0 && r.Bool() {
+					pr = scen.Pick(r, asked)
+				}
+				asked = append(asked, pr)
+				custom := pr.sev < 0 || pr.sev >= model.MaxLevel
+				sc.Setup = append(sc.Setup, scen.Op{Op: "enabled", L: pr.l, Lvl: pr.sev})
+				es := c01Entries(pr.sev, custom, pr.l == defID)
+				for e := r.Range(1, 2); e > 0 && len(es) > 0; e-- {
+					n++
+					op := scen.Op{Op: "log", L: pr.l, Entry: scen.Pick(r, es), Lvl: pr.sev, Msg: "m" + tok(n), Tok: tok(n)}
+					if op.Entry == "Log" {
+						op.Lvl = stdLevelOf[pr.sev]
+						op.I = int64(pr.sev)
+					}
+					sc.Setup = append(sc.Setup, op)
+				}
+			}
+			if r.Chance(1, 3) {
+				// right after the answers: the process-wide debug mode flips
+				if r.Chance(2, 3) {
+					sc.Setup = append(sc.Setup, scen.Op{Op: "set", L: scen.Pick(r, loggers), Kind: "level", Lvl: model.Debug})
+				} else {
+					sc.Setup = append(sc.Setup, scen.Op{Op: "set_debug_mode", B: []bool{false}})
+				}
+			}
+		}
 		switch c := r.Intn(100); {
 		case c < 18 && len(loggers) < 6: // new logger
 			id := nextID
@@ -176,7 +216,6 @@ func (p *C01) Gen(seed uint64, i int, tier string) *scen.Scenario {
 	// the sweep in the reached state
 	sc.Setup = append(sc.Setup, scen.Op{Op: "get_debug_mode"}, scen.Op{Op: "snap"})
 	sevs := []int{model.Panic, model.Fatal, model.Error, model.Warn, model.Info, model.Debug, model.Trace, model.Off, model.Always, model.OK, model.Success, model.Fail}
-	n := 0
 	for _, l := range loggers {
 		all := append(append([]int{}, sevs...), customs...)
 		for _, sev := range all {
@@ -277,27 +316,23 @@ func registryFromHistory(sc *scen.Scenario, ops map[string]*opObs, upto int) *mo
 // observation ops (get_debug_mode, snap) must precede the first sweep op and nothing that
 // changes the state may follow them.
 func (p *C01) WellFormed(sc *scen.Scenario) bool {
-	seenDbg, seenSnap := false, false
+	// 0 = state unobserved, 1 = debug mode read, 2 = debug mode and logger levels read
+	st := 0
 	for i := range sc.Setup {
 		switch op := &sc.Setup[i]; op.Op {
 		case "get_debug_mode":
-			if seenSnap {
-				return false
-			}
-			seenDbg = true
+			st = 1
 		case "snap":
-			if !seenDbg {
+			if st != 1 {
 				return false
 			}
-			seenSnap = true
+			st = 2
 		case "log", "enabled":
-			if !seenSnap {
+			if st != 2 {
 				return false
 			}
 		default:
-			if seenDbg {
-				return false // a state-changing op after the observation
-			}
+			st = 0 // a state-changing op: the next question needs a fresh observation
 		}
 	}
 	return true
@@ -313,12 +348,14 @@ func (p *C01) Check(sc *scen.Scenario, run *orch.Run, env *orch.Env) []orch.Viol
 	reg := registryFromHistory(sc, ops, -1)
 	debug := false
 	var snap map[int]snapLogger
+	block := 0
 	type cell struct {
 		wrote   bool
 		entry   string
 		enabled *bool
+		level   int
 	}
-	groups := map[string][]cell{} // logger/sev -> observations
+	groups := map[string][]cell{} // observation block/logger/sev -> observations
 	for i := range sc.Setup {
 		op := &sc.Setup[i]
 		o := ops[opKey("setup", 0, i+1)]
@@ -335,6 +372,10 @@ func (p *C01) Check(sc *scen.Scenario, run *orch.Run, env *orch.Env) []orch.Viol
 			}
 		case "snap":
 			snap = snapOf(o.Snap)
+			reg = registryFromHistory(sc, ops, i)
+			block++
+		default:
+			snap = nil // the state may have changed: questions need a fresh observation
 		case "enabled", "log":
 			if snap == nil {
 				continue
@@ -347,7 +388,7 @@ func (p *C01) Check(sc *scen.Scenario, run *orch.Run, env *orch.Env) []orch.Viol
 			if op.Entry == "Log" {
 				sev = int(op.I)
 			}
-			gk := fmt.Sprintf("%d/%d", op.L, sev)
+			gk := fmt.Sprintf("%04d/%d/%d", block, op.L, sev)
 			want := reg.Admitted(ls.Level, sev, debug)
 			if sev == -1000 {
 				want = model.Deny
@@ -366,7 +407,7 @@ func (p *C01) Check(sc *scen.Scenario, run *orch.Run, env *orch.Env) []orch.Viol
 					got  bool
 				}{{"Enabled", ret.Enabled}, {"EnabledContext", ret.EnabledCtx}} {
 					got := pair.got
-					groups[gk] = append(groups[gk], cell{wrote: got, entry: pair.name})
+					groups[gk] = append(groups[gk], cell{wrote: got, entry: pair.name, level: ls.Level})
 					if want == model.Admit && !got || want == model.Deny && got {
 						out = append(out, orch.Violation{Rule: "C01.enabled", Witness: fmt.Sprintf("entry=%s class=%s", pair.name, class),
 							Detail: fmt.Sprintf("%s(%s) on a logger at level %s (debug mode %v) returned %v, the admission rule says %v", pair.name, model.LevelName(sev), model.LevelName(ls.Level), debug, got, want == model.Admit)})
@@ -387,7 +428,7 @@ func (p *C01) Check(sc *scen.Scenario, run *orch.Run, env *orch.Env) []orch.Viol
 			if len(o.Writes) > 0 && !wrote {
 				wrote = true // some output was caused by the call
 			}
-			groups[gk] = append(groups[gk], cell{wrote: wrote, entry: op.Entry})
+			groups[gk] = append(groups[gk], cell{wrote: wrote, entry: op.Entry, level: ls.Level})
 			switch {
 			case want == model.Admit && !wrote:
 				out = append(out, orch.Violation{Rule: "C01.missing", Witness: fmt.Sprintf("entry=%s class=%s", op.Entry, class),
@@ -419,11 +460,11 @@ func (p *C01) Check(sc *scen.Scenario, run *orch.Run, env *orch.Env) []orch.Viol
 			if len(no) < len(yes) {
 				minority = no
 			}
-			var l, sev int
-			fmt.Sscanf(gk, "%d/%d", &l, &sev)
+			var b, l, sev int
+			fmt.Sscanf(gk, "%d/%d/%d", &b, &l, &sev)
 			for _, e := range minority {
 				out = append(out, orch.Violation{Rule: "C01.inconsistent", Witness: fmt.Sprintf("entry=%s class=%s", e, sevClass(reg, sev)),
-					Detail: fmt.Sprintf("severity %s on logger %d (level %s): admitted by [%s] but not by [%s]", model.LevelName(sev), l, model.LevelName(snap[l].Level), strings.Join(yes, ","), strings.Join(no, ","))})
+					Detail: fmt.Sprintf("severity %s on logger %d (level %s): admitted by [%s] but not by [%s]", model.LevelName(sev), l, model.LevelName(cells[0].level), strings.Join(yes, ","), strings.Join(no, ","))})
 			}
 		}
 	}
